@@ -8,6 +8,7 @@ import Liquid.Call
 import Liquid.Filters.Num
 import Liquid.Filters.Str
 import Liquid.Compare
+import Liquid.Rex
 /-!
 # Line-protocol driver (DESIGN §5.1): one case per line in, one canonical result line out.
 -/
@@ -231,6 +232,8 @@ def runCase (line : String) : String :=
   match line.splitOn " " with
   | ["scan", d, ln, src] =>
     showTokens (scan (parseDelims d) (hexDecode src) ln.toNat!)
+  | ["rex", enc, inp] => Rex.run enc inp
+  | ["rexs", d, inp] => Rex.runScan (parseDelims d) inp
   | ["tw", ops] =>
     let os := if ops == "-" then [] else (ops.splitOn ",").filterMap WOp.parse
     showCalls (writeCalls os)
